@@ -69,6 +69,31 @@ TEXT_NOTE = ("Trusted: Coq kernel; extraction (ExtrOcamlBasic only); the hand-wr
              "Loader.v, Cli.v are tied to the Python source only by the differential correspondence run; harness glue; "
              "fastcore shim; 7-bit text; Python's re/str.strip/csv/PyYAML/typer are modelled or exercised, not verified.")
 CLAIMS.update({
+    "C09": {"text": "Coq theorems C09_sound (every processor the loader model returns satisfies C09_checkb: acyclic, names unique "
+                    "ignoring case, positive widths, no unit without capabilities, every connection joins units sharing a "
+                    "capability, every input capability reaches an output through supporting units, every maximal route of it "
+                    "crosses exactly one read-locking and one write-locking unit) and C09_accepted_is_simulable (loader output "
+                    "satisfies the structural part of the simulator theorems' guard). Correspondence: generated descriptions "
+                    "(1..8 units, DAG and cyclic, 1..3 capabilities, arbitrary locks), processor compared as sets per class; the "
+                    "checker is evaluated on the IMPLEMENTATION's ProcessorDesc.",
+            "note": TEXT_NOTE + " networkx maximum_flow_value == 0 is abstracted to 'no path' (DESIGN.md section 5).",
+            "technique": "Coq proof (Kahn/DFS correctness, lock-count invariant over the post-order) + differential correspondence"},
+    "C10": {"text": "Coq theorem C10_exact: the loaded processor is exactly what a graph search on the description prescribes "
+                    "(C10_checkb: units = usable units from which a usable declared output is reachable; capabilities = those "
+                    "some input port can feed along units all declaring them; predecessors = kept connections; width, locks, "
+                    "memory list, name as declared; ports of the result were ports of the description). The pinned tree violated "
+                    "this (one-pass dead-end removal, fixed by 8dc64c1). Correspondence: descriptions with grafted dead branches "
+                    "of depth 1..3 and partially compatible connections.",
+            "note": TEXT_NOTE, "technique": "Coq proof (clean_struct computes the fed capabilities; iterated terminal removal = co-reachability) + differential correspondence"},
+    "C11": {"text": "Coq theorems C11_error_sound (under acl_knownb: every rejection names a defect of its documented class that "
+                    "is really present, with the reported culprit: first case-insensitive name clash in definition order, the "
+                    "non-positive width, the malformed connection, the unknown unit, a cycle, dead input ports, no usable input "
+                    "port, a capability route with zero/several/inconsistent locks, a blocked capability), C11_accept_sound, "
+                    "C11_iff, and C11_refuted_acl (the open known finding: outside the guard the loader fails with a bare "
+                    "AssertionError). Correspondence: valid descriptions, single injected defects of 13 kinds, arbitrary "
+                    "multiple defects; accept/reject, class and fields compared, messages checked to contain the culprit.",
+            "note": TEXT_NOTE + " One open known finding (known_findings.json: C11-acl-undeclared-capability).",
+            "technique": "Coq proof (stage-by-stage case analysis of the loader model) + differential correspondence"},
     "C12": {"text": "Coq theorems C12_post_order (a processor built from parts with distinct internal-unit names lists the same "
                     "parts with every internal unit before all of its predecessors, outputs and predecessor lists in name "
                     "order), C12_supply_order_irrelevant (any permutation of the supplied parts gives the same ports and a "
